@@ -2,9 +2,9 @@
 
 // C04 contract that relies on the C01 helper's contracts for pkg/utils/resources (Subtract, SubtractFrom, Merge)
 // and on the C04 contracts for (*StateNode).Available / Allocatable (pending/pkg/controllers/state).
-// Status: both sites, [remaining] and [wraps] discharge; unknown are only the preconditions of the existing C17 contract of
-//   (Requirements).Add at `node.requirements.Add(...)` (#call.scheduling.(Requirements).Add.2.pre.inv / .pre.args): they
-//   need a contract for scheduling.NewLabelRequirements (has a loop, no contract -> havocked, no rsInv for its result).
+// Status (against /repo at 63861fe06 + drafts/C01): both sites, [remaining] and [wraps] discharge; the only unknown is
+//   NewExistingNode#call.scheduling.NewLabelRequirements.2.pre.normalized - the precondition of the existing contract of
+//   scheduling.NewLabelRequirements on `n.Labels()` (needs a fact that state-node labels are normalized; not C04's to give).
 // Not stated: the clamp "remaining daemon overhead never negative" (loop 1) - Quantity.AsApproximateFloat64 / Set have no stub.
 package scheduling
 
